@@ -37,6 +37,7 @@ pub fn warm_up() {
     with_tests: true,
     ignore_file: None,
     injections: 2,
+    aux_files: vec![],
   };
   let root = cli_run::scratch_root().join("warmup");
   w.materialize(&root);
@@ -115,6 +116,7 @@ pub fn main() -> i32 {
       with_tests: true,
       ignore_file: None,
       injections: 0,
+      aux_files: vec![],
     };
     let root = cli_run::scratch_root().join("selftest");
     w.materialize(&root);
